@@ -9,15 +9,15 @@ rc=0
 # evidence files are rewritten by every run: keep the clean-tree records
 keep=$(mktemp -d /tmp/evidence.XXXXXX); cp -a evidence/. $keep/
 for d in seeded/*/; do
-  id=$(basename $d)
+  dir=$(basename $d); id=${dir%%r[0-9]*}
   [ -f $d/patch.diff ] || continue
-  if ! git -C /repo apply --check /verif/$d/patch.diff 2>/dev/null; then echo "seed $id: patch no longer applies (code moved on) - SKIPPED"; continue; fi
+  if ! git -C /repo apply --check /verif/$d/patch.diff 2>/dev/null; then echo "seed $dir: patch no longer applies (code moved on) - SKIPPED"; continue; fi
   git -C /repo apply /verif/$d/patch.diff
   out=$(bin/gocv check $id --tier quick 2>&1); code=$?
   git -C /repo apply -R /verif/$d/patch.diff
   n=$(echo "$out" | grep -c "^VIOLATION property=$id ")
   conf=$(echo "$out" | grep "^VIOLATION property=$id " | grep -vc "no-failing-input-found")
-  if [ $code -eq 1 ] && [ $n -gt 0 ]; then echo "seed $id: detected ($n violation line(s), $conf confirmed on the real code)"; else echo "seed $id: MISSED (exit $code)"; rc=1; fi
+  if [ $code -eq 1 ] && [ $n -gt 0 ]; then echo "seed $dir: detected ($n violation line(s), $conf confirmed on the real code)"; else echo "seed $dir: MISSED (exit $code)"; rc=1; fi
 done
 cp -a $keep/. evidence/; rm -rf $keep
 if [ -n "$(git -C /repo status --porcelain)" ]; then echo "selftest/seeded.sh: /repo not clean after the run!"; rc=2; fi
